@@ -34,11 +34,15 @@ Record tarr_rel (t : tabs) (sa : list sarr) (a : tarrs) : Prop := mkTR {
   tr_len : length (t_arr t) = length sa;
   tr_tab : forall k, (k < length sa)%nat -> nth k (t_arr t) 0 = tid k;
   tr_img : a = map (timg t) sa;
-  tr_scoped : Forall (arr_scoped (length (t_heap t)) (length (t_arr t))) sa
+  tr_scoped : Forall (arr_scoped (length (t_heap t)) (length (t_arr t))) sa;
+  tr_nz : Forall (fun ar => sa_esz ar <> 0) sa            (* the contract never makes an array of zero-word elements *)
 }.
 
 Lemma tarr_rel_init : tarr_rel tabs0 [] [].
 Proof. constructor; cbn; auto; intros; lia. Qed.
+
+Lemma nth_esz_nz : forall sa k, Forall (fun ar => sa_esz ar <> 0) sa -> (k < length sa)%nat -> sa_esz (nth k sa dummy_arr) <> 0.
+Proof. intros sa k H Hk. rewrite Forall_forall in H. apply H. apply nth_In. exact Hk. Qed.
 
 Lemma timg_ext : forall t t' ar, ext t t' -> arr_scoped (length (t_heap t)) (length (t_arr t)) ar -> timg t' ar = timg t ar.
 Proof. intros t t' ar He Hs. unfold timg. rewrite (map_resolve_ext t t') by auto. reflexivity. Qed.
@@ -65,10 +69,10 @@ Proof. intros. split; cbn; [exists []; now rewrite app_nil_r|eexists; reflexivit
 
 (* a new array: alloc_array_with_data on the resolved words *)
 Lemma tarr_rel_alloc : forall t sa a esz data,
-  tarr_rel t sa a -> vals_scoped (length (t_heap t)) (length (t_arr t)) data ->
+  tarr_rel t sa a -> vals_scoped (length (t_heap t)) (length (t_arr t)) data -> esz <> 0 ->
   tarr_rel (add_arr t (tid (length sa))) (sa ++ [mkSArr esz data]) (a ++ [mkTArr esz (map (resolve t) data)]).
 Proof.
-  intros t sa a esz data [Hl Ht Hi Hs] Hd.
+  intros t sa a esz data [Hl Ht Hi Hs Hz] Hd Hesz.
   pose proof (ext_add_arr t (tid (length sa))) as He.
   constructor.
   - cbn [add_arr t_arr]. rewrite !app_length. cbn. lia.
@@ -83,6 +87,7 @@ Proof.
       eapply vals_scoped_mono; [| |exact Ho]; [lia|rewrite app_length; lia].
     + constructor; [|constructor]. unfold arr_scoped; cbn [sa_data].
       eapply vals_scoped_mono; [| |exact Hd]; [lia|rewrite app_length; lia].
+  - apply Forall_app. split; [exact Hz|]. constructor; [exact Hesz|constructor].
 Qed.
 
 Lemma nlen_snoc : forall {A} (l : list A) x, nlen (l ++ [x]) = N.of_nat (length l) + 1.
@@ -101,10 +106,11 @@ Lemma tarr_rel_set : forall t sa a k data',
   tarr_rel t (set_at sa k (mkSArr (sa_esz (nth k sa dummy_arr)) data'))
              (put_nth a k (mkTArr (sa_esz (nth k sa dummy_arr)) (map (resolve t) data'))).
 Proof.
-  intros t sa a k data' [Hl Ht Hi Hs] Hk Hd. constructor; rewrite ?set_at_length; auto.
+  intros t sa a k data' [Hl Ht Hi Hs Hz] Hk Hd. constructor; rewrite ?set_at_length; auto.
   - rewrite Hi. change (mkTArr (sa_esz (nth k sa dummy_arr)) (map (resolve t) data'))
       with (timg t (mkSArr (sa_esz (nth k sa dummy_arr)) data')). apply put_nth_map.
   - apply Forall_set_at; auto.
+  - apply Forall_set_at; auto. cbn [sa_esz]. apply nth_esz_nz; auto.
 Qed.
 
 (* ---------- the literal: alloc_array + one slice copy per element ---------- *)
